@@ -368,7 +368,7 @@ int main(int argc, char** argv) {
     } else if (op == "reset" || op == "geo" || op == "root" || op == "mem" || op == "memw" || op == "elem" || op == "elemw" || op == "set" || op == "setm" ||
                op == "sete" || op == "add" || op == "addv" || op == "toarr" || op == "toobj" || op == "remi" || op == "remk" || op == "clear" || op == "cleardoc" ||
                op == "copydoc" || op == "swapdoc" || op == "movedoc" || op == "shrink" || op == "obs" || op == "obsx" || op == "failat" || op == "failfrom" || op == "nofail" || op == "ledger" ||
-               op == "hser" || op == "liveq") {
+               op == "hser" || op == "liveq" || op == "deserj" || op == "deserm") {
       // API histories over 3 documents (each with its own spying allocator) and 10 references
       static std::vector<JsonDocument>* docsp = nullptr;
       static std::vector<JsonVariant> refs(10);
@@ -440,6 +440,10 @@ int main(int argc, char** argv) {
       else if (op == "copydoc") { int d, e; is >> d >> e; docs[d] = docs[e]; }
       else if (op == "swapdoc") { int d, e; is >> d >> e; swap(docs[d], docs[e]); }
       else if (op == "shrink") { int d; is >> d; docs[d].shrinkToFit(); }
+      else if (op == "deserj" || op == "deserm") { int r, lim; string hex; is >> r >> lim >> hex; string in = unhex(hex);
+        DeserializationError e = op == "deserj" ? deserializeJson(refs[r], in.data(), in.size(), DeserializationOption::NestingLimit((uint8_t)lim))
+                                                : deserializeMsgPack(refs[r], in.data(), in.size(), DeserializationOption::NestingLimit((uint8_t)lim));
+        out = e.c_str(); }
       else if (op == "failat") { int d; long k; is >> d >> k; HSPY[d].failAt.insert(HSPY[d].calls + k); }
       else if (op == "failfrom") { int d; long k; is >> d >> k; HSPY[d].failFrom = HSPY[d].calls + k; }
       else if (op == "nofail") { int d; is >> d; HSPY[d].failAt.clear(); HSPY[d].failFrom = -1; }
